@@ -62,7 +62,11 @@ func Scan(buf []byte, off, end int, depth int) (nodes []*Node, ok bool) {
 			return nodes, false
 		}
 		n := &Node{Type: string(buf[off+4 : off+8]), Off: off, Size: size, HdrLen: hl}
-		if co, isCont := childOffset[n.Type]; isCont && co >= 0 && depth < 16 && size >= hl+co {
+		co, isCont := childOffset[n.Type]
+		if n.Type == "meta" && size >= hl+8 && string(buf[off+hl+4:off+hl+8]) == "hdlr" {
+			co = 0 // QuickTime meta atom: no version/flags, the hdlr box comes first (the rule of DecodeMetaSR)
+		}
+		if isCont && co >= 0 && depth < 16 && size >= hl+co {
 			ch, _ := Scan(buf, off+hl+co, off+size, depth+1)
 			n.Children = ch // kept even when the children do not tile (the prefix that parsed)
 		}
